@@ -17,6 +17,9 @@ from .core import SymBool
 from . import floats as sf
 
 
+_MISSING = object()
+
+
 class Clock:
     def __init__(self, repo_prefix):
         self.t = 0
@@ -166,15 +169,57 @@ class HookedList(list):
             yield self[i]
 
 
+def _has_sym(k, depth=0):
+    if isinstance(k, (core.SymInt, core.SymBool, sf.SymFloat)):
+        return True
+    if depth < 3 and isinstance(k, tuple):
+        return any(_has_sym(x, depth + 1) for x in k)
+    return False
+
+
+def _keq(a, b):
+    """key equality as python would decide it, with symbolic components compared by the solver (forks)."""
+    if isinstance(a, tuple) and isinstance(b, tuple):
+        if len(a) != len(b):
+            return False
+        for x, y in zip(a, b):
+            if not _keq(x, y):
+                return False
+        return True
+    if isinstance(a, tuple) != isinstance(b, tuple):
+        return False
+    try:
+        return bool(a == b)
+    except TypeError:
+        return False
+
+
 class HookedDict(dict):
+    """dict whose lookups also work when the probe key or stored keys contain symbolic components: python's hashing would
+    put a symbolic key and an equal concrete key into different buckets, so such lookups scan the stored keys and decide
+    equality with the solver."""
     _symx_name = "?"
 
+    def _find(self, k):
+        if not _has_sym(k) and not getattr(self, "_symx_symkeys", False):
+            return k if dict.__contains__(self, k) else _MISSING
+        for sk in list(dict.keys(self)):
+            if _keq(sk, k):
+                return sk
+        return _MISSING
+
+    def __contains__(self, k):
+        return self._find(k) is not _MISSING
+
     def __getitem__(self, k):
-        v = dict.__getitem__(self, k)
+        sk = self._find(k)
+        if sk is _MISSING:
+            raise KeyError(k)
+        v = dict.__getitem__(self, sk)
         st = _STATE
         if st is None or not st.clock.active:
             return v
-        return _on_read(st, self, k, v)
+        return _on_read(st, self, sk, v)
 
     def __setitem__(self, k, v):
         st = _STATE
@@ -182,6 +227,11 @@ class HookedDict(dict):
             st.last_write[(id(self), k)] = st.clock.t
             st.writes.append((self._symx_name, repr(k)[:40], st.clock.t))
             _publish(st, self, repr(k)[:40], v)
+        if _has_sym(k):
+            self._symx_symkeys = True
+            sk = self._find(k)
+            if sk is not _MISSING:
+                k = sk
         dict.__setitem__(self, k, v)
 
     def clear(self):
@@ -209,8 +259,15 @@ class HookedDict(dict):
         dict.__delitem__(self, k)
 
     def get(self, k, d=None):
+        sk = self._find(k)
+        if sk is _MISSING:
+            return d
+        return self[sk]
+
+    def setdefault(self, k, d=None):
         if k in self:
             return self[k]
+        self[k] = d
         return d
 
 
